@@ -69,7 +69,7 @@ def sibling_doc(rnd):
 def run(tier, seed):
     ck = Check(PID, tier, seed)
     rnd = ck.rnd
-    ck.proof = lib.proof_step('props/C02.v', matchcheck.MATCH_CONE + ['NthFacts.v'])
+    ck.proof = lib.proof_step('props/C02.v', matchcheck.MATCH_CONE + ['NthFacts.v', 'NthProof.v', 'MemoFacts.v', 'HistFacts.v', 'NthElem.v'])
     ck.broken += ck.proof['broken']
     if not ck.proof['driver_ok']:
         return ck.finish(rule='driver unavailable')
